@@ -360,3 +360,98 @@ def t_split(t):
 
 
 KINDS.update({"split": t_split})
+
+
+# ---------------------------------------------------------------- C02 / C04 / C16: specifications
+def ser_spec(spec, items):
+    """SFS dict -> wire fields (src, tgt, instrs, deps).  `items`: [(disasm, value)] of the sub-block, used to name
+    pseudo-pushes exactly like the block tokens do."""
+    def atom(a):
+        if isinstance(a, bool):
+            raise ValueError("bool atom")
+        if isinstance(a, int):
+            return "#%d" % a
+        s = str(a)
+        try:
+            return "#%d" % int(s)
+        except ValueError:
+            return s
+    symmap = {}
+    for d, v in items:
+        if d in vocab.PSEUDO_PUSH:
+            tok = vocab.token(d, v)[4:]
+            symmap.setdefault((d, str(v)), tok)
+            try:
+                symmap.setdefault((d, int(str(v), 16)), tok)
+            except (ValueError, TypeError):
+                pass
+    recs = []
+    for u in spec["user_instrs"]:
+        op = u["disasm"]
+        sym = ""
+        if op == "PUSH":
+            sym = "%x" % int(u["value"][0])
+        elif op == "PUSH0":
+            sym = "0"
+        elif op in vocab.PSEUDO_PUSH:
+            val = u.get("value", [None])[0] if u.get("value") else None
+            sym = symmap.get((op, val)) or symmap.get((op, str(val))) or vocab.token(op, None if val is None else str(val))[4:]
+        out = u["outpt_sk"][0] if u["outpt_sk"] else ""
+        recs.append("~".join([u["id"], op, sym, ",".join(atom(a) for a in u["inpt_sk"]), str(out), "1" if u.get("commutative") else "0"]))
+    deps = ",".join("%s>%s" % (a, b) for a, b in (spec.get("memory_dependences", []) + spec.get("storage_dependences", [])))
+    return [",".join(spec["src_ws"]), ",".join(atom(a) for a in spec["tgt_ws"]), ";".join(recs), deps]
+
+
+def t_spec(t):
+    """specifications of a block (per sub-block), the greedy result on each, published bounds"""
+    from greedy.block_generation import greedy_from_json
+    import copy
+    p = params_for(t["opts"])
+    r = {"text": t["text"], "opts": t["opts"], "subs": []}
+    try:
+        bs = impl.parse_block(t["text"])
+    except Exception as ex:
+        r["parse_exception"] = "%s: %s" % (type(ex).__name__, ex)
+        return r
+    for b in bs:
+        if not b.instructions_to_optimize_plain():
+            continue
+        try:
+            with impl.quiet():
+                d, subs = impl.gasol_asm.compute_original_sfs_with_simplifications(b, p)
+        except Exception as ex:
+            r.setdefault("exceptions", []).append("%s: %s" % (type(ex).__name__, ex))
+            continue
+        stripped = impl.gasol_asm.process_blocks_split(subs)
+        for k, sb in enumerate(stripped):
+            name = "%s_%d" % (b.block_name, k)
+            if name not in d["syrup_contract"] or not sb:
+                continue
+            spec = d["syrup_contract"][name]
+            e = {"name": name, "plain": sb}
+            try:
+                sbb = impl.gasol_asm.generate_block_from_plain_instructions(" ".join(sb), "x")
+                items = [(i.disasm, i.value) for i in sbb.instructions]
+                e["tokens"] = vocab.tokens_of_block(sbb)
+                e["spec"] = ser_spec(spec, items)
+                e["effects"] = [u["id"] for u in spec["user_instrs"] if u["disasm"] in
+                                ("MSTORE", "MSTORE8", "MLOAD", "KECCAK256", "SHA3", "SSTORE", "SLOAD")]
+                e["uinstrs"] = [[u["id"], u["disasm"], [str(a) for a in u["inpt_sk"]], [str(a) for a in u["outpt_sk"]]] for u in spec["user_instrs"]]
+                e["deps"] = spec.get("memory_dependences", []) + spec.get("storage_dependences", [])
+                e["bounds"] = {k2: spec.get(k2) for k2 in ("init_progr_len", "max_progr_len", "max_sk_sz", "min_length", "min_length_instrs",
+                                                             "min_length_bounds", "original_instrs", "rules_applied")}
+            except (vocab.Unsupported, ValueError, KeyError) as ex:
+                e["unsupported"] = "%s: %s" % (type(ex).__name__, ex)
+            if t.get("greedy", True) and "spec" in e:
+                try:
+                    with impl.quiet():
+                        _, _, res, resids, error = greedy_from_json(copy.deepcopy(spec))
+                    e["greedy"] = {"ids": list(resids) if resids is not None else None, "error": error,
+                                   "res": [str(x) for x in res] if res is not None else None}
+                except Exception as ex:
+                    e["greedy"] = {"exception": "%s: %s" % (type(ex).__name__, ex)}
+            r["subs"].append(e)
+    return r
+
+
+KINDS.update({"spec": t_spec})
